@@ -464,7 +464,10 @@ def _build_dict(D, entries, r):
         keys = {}
         for key, val, opt in ents:
             keys[key if key is ... else (D.optional(key) if (opt or all_optional) else key)] = val
-        return D.schema.dict(keys)
+        made = D.schema.dict(keys)
+        keys["__scribbled_afterwards__"] = D.schema.none      # the dict was the caller's
+        keys.clear()
+        return made
     if r % 3 == 1:
         from d42.utils import make_required
         required = [key for key, val, opt in entries if key is not ... and not opt]
@@ -509,7 +512,12 @@ def g_schema(s, _depth=0):
         if s["type"]:
             obj = obj(g_schema(s["type"][0], _depth + 1))
         elif s["elems"]:
-            obj = obj([... if _is_ell(e) else g_schema(e, _depth + 1) for e in s["elems"][0]])
+            mine = [... if _is_ell(e) else g_schema(e, _depth + 1) for e in s["elems"][0]]
+            obj = obj(mine)
+            # the list was the caller's: what the caller does with it afterwards is its own business
+            mine.append(D.schema.none)
+            mine.reverse()
+            del mine[:]
         lc = len_call(s)
         if lc:
             obj = g_call(obj, lc)
